@@ -410,8 +410,31 @@ void vf_run(const uint8_t *data, size_t len)
     // whatever the abandoned other argument(s) of the aborted call still own is the only thing that may be left
     size_t left = lib_live_count();
     for (void *p : born) if (lib_is_live(p) && left) left--;
-    size_t other_max = en.nargs == 2 ? (kind == K_UNIQUE ? 1 : kind == K_GUARDED ? 0 : 2) : 0;
-    if (special) other_max += 2;
+    // how many blocks one owning object of a kind holds is the implementation's layout (one for a unique pointer, two for a
+    // shared pointer or an array on the pinned tree; an array that keeps its elements in a block of their own holds three):
+    // it is measured once per process on a scratch object, not assumed
+    static size_t per_obj[8];
+    static bool per_obj_known[8];
+    if (!per_obj_known[kind]) {
+        size_t b0 = lib_live_count();
+        cstl_unique_ptr_t pu; cstl_shared_ptr_t ps; cstl_array_t pa;
+        switch (kind) {
+        case K_UNIQUE: LIB(cstl_unique_ptr_init(&pu)); LIB(cstl_unique_ptr_alloc(&pu, 1100, nullptr, nullptr)); break;
+        case K_SHARED: case K_WEAK: LIB(cstl_shared_ptr_init(&ps)); LIB(cstl_shared_ptr_alloc(&ps, 1200, nullptr)); break;
+        case K_ARRAY: LIB(cstl_array_init(&pa)); LIB(cstl_array_alloc(&pa, 8, 4)); break;
+        default: break;
+        }
+        per_obj[kind] = lib_live_count() - b0;
+        switch (kind) {
+        case K_UNIQUE: LIB(cstl_unique_ptr_reset(&pu)); break;
+        case K_SHARED: case K_WEAK: LIB(cstl_shared_ptr_reset(&ps)); break;
+        case K_ARRAY: LIB(cstl_array_reset(&pa)); break;
+        default: break;
+        }
+        per_obj_known[kind] = true;
+    }
+    size_t other_max = en.nargs == 2 ? per_obj[kind] : 0;
+    if (special) other_max += per_obj[kind] > 2 ? per_obj[kind] : 2;
     CHECK(left <= other_max, "C20.original.reset", "after resetting the originals %zu library blocks are live (the abandoned argument can account for at most %zu)",
           left, other_max);
     lib_release_all();
